@@ -23,7 +23,7 @@ HARD_STRINGS = [
     '\x85', '\xa0', ' ', ' ', '﻿', '\x00', '\x01', '\x1b', '\x7f',
     'a' * 90, 'word ' * 30, '0.0', '-0', '1e400', '123456789012345678901234567890',
 ]
-SIMPLE_STRINGS = ['x', 'abc', 'red', 'k', 'v', 'hello', 'a b']
+SIMPLE_STRINGS = ['x', 'abc', 'red', 'k', 'v', 'hello', 'a b', 'bad', 'badge']
 KEY_STRINGS = ['k', 'j', 'key', 'some_key', 'some-key', 'x', 'a', 'n_1', 'n-1']
 
 
@@ -185,6 +185,9 @@ def vspec_for(draw, spec, t, hard=True, finite=False, depth=0, omit_defaults=Tru
         if kind == 'enum':
             return ['enum', c['name'], draw(st.sampled_from(c['members']))]
         if kind in ('strsub', 'userstring', 'ystring'):
+            if c.get('init_raises') and draw(st.integers(0, 3)) == 0:
+                # a value the class's constructor rejects
+                return ['strlike', c['name'], draw(st.sampled_from(['bad', 'bad value', 'badge']))]
             return ['strlike', c['name'], draw(strings(hard))]
         cands = instantiable(spec, c['name'])
         if not cands:
@@ -545,7 +548,9 @@ def models(draw, feats=(), max_classes=5, doc_type=None):
             sk = draw(st.sampled_from(['strsub', 'userstring', 'ystring']))
             c = {'name': name, 'kind': sk}
             if draw(st.integers(0, 3)) == 0:
-                c['init_raises'] = ['startswith', 'value', 'bad', 'ValueError']
+                c['init_raises'] = ['startswith', 'value', 'bad', draw(st.sampled_from(
+                    ['ValueError', 'ValueError', 'KeyError', 'TypeError', 'RuntimeError',
+                     'AttributeError', 'ZeroDivisionError', 'IndexError']))]
             classes.append(c)
             strs.append(name)
             continue
